@@ -53,6 +53,25 @@ def nprocs():
 
 
 # ---------------------------------------------------------------- pool
+def _fresh_repo_modules():
+    """A forked worker inherits whatever the parent imported.  If the parent imported the repository
+    natively (enumerating forms, opcodes, ...) the evaluator module is there without its source
+    transform; drop every repo / mock module so that the unit's own env.setup() starts clean."""
+    ev = sys.modules.get("binja_test_mocks.eval_llil")
+    if ev is None or getattr(ev, "__symx_transformed__", False):
+        return
+    for name in list(sys.modules):
+        if name.split(".")[0] in ("sc62015", "pce500", "binja_test_mocks", "binaryninja", "plugin"):
+            del sys.modules[name]
+    for name in ("contracts.cpu", "contracts.blockind", "contracts.codec", "contracts.asmlayout", "contracts.asmrt"):
+        m = sys.modules.get(name)
+        if m is not None and hasattr(m, "_MODS"):
+            m._MODS = None
+    env = sys.modules.get("symx.env")
+    if env is not None:
+        env._done = False
+
+
 def _worker(args):
     fn_path, unit, budget = args
     modname, fname = fn_path.split(":")
@@ -62,6 +81,7 @@ def _worker(args):
         raise TimeoutError("unit wall budget")
 
     try:
+        _fresh_repo_modules()
         mod = __import__(modname, fromlist=[fname])
         fn = getattr(mod, fname)
         signal.signal(signal.SIGALRM, on_alarm)
